@@ -21,7 +21,7 @@ tp.get_peer_certificate_from_connection = lambda conn: conn.get_peer_certificate
 tp.x509_to_cryptography = lambda c: c
 
 
-def make_tls(handler, middleware=None, upload=None, conn=None, peer=("192.0.2.7", 50000)):
+def make_tls(handler, middleware=None, upload=None, conn=None, peer=("192.0.2.7", 50000), high_water=None):
     loop = MiniLoop()
     fa = FakeAsyncio(loop)
     bind(sp, _asyncio, fa)
@@ -36,7 +36,7 @@ def make_tls(handler, middleware=None, upload=None, conn=None, peer=("192.0.2.7"
         return p
 
     outer = TLSServerProtocol(factory, None)
-    tcp = FakeTransport(peer=peer)
+    tcp = FakeTransport(peer=peer, high_water=high_water, protocol=outer)
     outer.connection_made(tcp)
     return outer, tcp, loop, conn, made
 
